@@ -132,4 +132,22 @@ def deepHandler : Handler := fun payload impl =>
   | none => ("BAD-CASE", "-")
   | some w => (w, if impl == w then "ok" else s!"FAIL the reference semantics gives exactly one answer, {w}; the interpreter: {impl}")
 
+/-! ### c04.consult: a ball thrown by a directive of one file of a consulted list (closed form)
+
+  Files before the throwing one are loaded completely, the throwing file runs up to its throw and
+  contributes nothing (a failed load is not committed, C20), the files after it are not touched, and
+  the ball reaches the catcher / ends the query. -/
+def consultHandler : Handler := fun payload impl =>
+  match words payload with
+  | [_, n, f] =>
+    match natOfChars n.toList, natOfChars f.toList with
+    | some n, some f =>
+      let lines := ((List.range n).filter (· < f)).flatMap (fun k => [s!"f{k}_begin", s!"f{k}_end"]) ++
+        (if f < n then [s!"f{f}_begin"] else [])
+      let loaded := String.join ((List.range n).map fun k => if k < f then "1" else "0")
+      let w := s!"out={",".intercalate lines} ball={if f < n then toString f else "none"} loaded={loaded}"
+      (w, if impl == w then "ok" else s!"FAIL throw/1 inside a consulted file must abandon the load at once: want {w}")
+    | _, _ => ("BAD-CASE", "-")
+  | _ => ("BAD-CASE", "-")
+
 end PrologVerif.Driver.C01
